@@ -462,7 +462,11 @@ func (c *Ctx) trailingRule(rule string, pl *ssa.Function, lineAlloc *ssa.Alloc, 
 	r := c.R
 	var split *ssa.Call
 	isCut, isIdx := false, false
-	funcInstrs(pl, func(in ssa.Instruction) {
+	// the split may sit in ParseLine itself or in a helper it calls (directly or through another helper)
+	hosts := c.Closure([]*ssa.Function{pl}, func(from *ssa.Function, e Edge) bool {
+		return e.Kind == EdgeCall && !e.Site.Common().IsInvoke() && e.Callee.Package() == c.Client
+	})
+	scan := func(in ssa.Instruction) {
 		call, ok := in.(*ssa.Call)
 		if !ok {
 			return
@@ -483,7 +487,16 @@ func (c *Ctx) trailingRule(rule string, pl *ssa.Function, lineAlloc *ssa.Alloc, 
 				split, isIdx = call, true
 			}
 		}
-	})
+	}
+	for _, h := range hosts.Order {
+		if split == nil && c.InModuleFn(h) {
+			funcInstrs(h, scan)
+		}
+	}
+	host := pl
+	if split != nil {
+		host = split.Parent()
+	}
 	if split == nil {
 		r.Add(rule, "trailing-split", c.Pos(pl.Pos()), c.FuncKey(pl), "the middle/trailing split is strings.SplitN(rest, \" :\", 2), strings.Cut(rest, \" :\") or strings.Index(rest, \" :\") with slicing", false, "no recognised idiom: undecided (fail closed)")
 		return
@@ -516,7 +529,7 @@ func (c *Ctx) trailingRule(rule string, pl *ssa.Function, lineAlloc *ssa.Alloc, 
 	}
 	// find append(Fields(part0), part1)
 	var app, fieldsCall *ssa.Call
-	funcInstrs(pl, func(in ssa.Instruction) {
+	funcInstrs(host, func(in ssa.Instruction) {
 		call, ok := in.(*ssa.Call)
 		if !ok {
 			return
@@ -534,7 +547,7 @@ func (c *Ctx) trailingRule(rule string, pl *ssa.Function, lineAlloc *ssa.Alloc, 
 		}
 	})
 	if app == nil {
-		r.Add(rule, "trailing-append", c.InstrPos(split), c.FuncKey(pl), "the trailing parameter is appended to Fields(head)", false, "append(Fields(head), trailing) not found: undecided (fail closed)")
+		r.Add(rule, "trailing-append", c.InstrPos(split), c.FuncKey(host), "the trailing parameter is appended to Fields(head)", false, "append(Fields(head), trailing) not found: undecided (fail closed)")
 		return
 	}
 	// the append is control dependent exactly on "a second part exists"
@@ -579,7 +592,7 @@ func (c *Ctx) trailingRule(rule string, pl *ssa.Function, lineAlloc *ssa.Alloc, 
 			}
 		}
 	}
-	r.Add(rule, "trailing-append", c.InstrPos(app), c.FuncKey(pl), "trailing parameter appended iff a \" :\" section exists", ok, why)
+	r.Add(rule, "trailing-append", c.InstrPos(app), c.FuncKey(host), "trailing parameter appended iff a \" :\" section exists", ok, why)
 	// the result feeds Cmd/Args: args phi = {app, Fields(head)}
 	var argsPhi *ssa.Phi
 	for _, ref := range *app.Referrers() {
@@ -598,9 +611,49 @@ func (c *Ctx) trailingRule(rule string, pl *ssa.Function, lineAlloc *ssa.Alloc, 
 			}
 		}
 	}
-	r.Add(rule, "args-sources", c.InstrPos(app), c.FuncKey(pl), "without a trailing section the arguments are Fields(head)", okPhi, "argument list is phi(append(Fields(head), trailing), Fields(head))")
+	if host != pl {
+		// helper form: every return of the helper is the append or Fields(head / whole operand)
+		okPhi = true
+		nRet := 0
+		funcInstrs(host, func(in ssa.Instruction) {
+			rt, isR := in.(*ssa.Return)
+			if !isR || len(rt.Results) != 1 {
+				return
+			}
+			for _, o := range c.originsLocal(retVal(rt, 0)) {
+				nRet++
+				if o == ssa.Value(app) {
+					continue
+				}
+				if f, ok := o.(*ssa.Call); ok && calleeName(&f.Call) == "strings.Fields" && (part(f.Call.Args[0], 0) || f.Call.Args[0] == rest) {
+					continue
+				}
+				okPhi = false
+			}
+		})
+		okPhi = okPhi && nRet >= 2
+	}
+	r.Add(rule, "args-sources", c.InstrPos(app), c.FuncKey(host), "without a trailing section the arguments are Fields(head)", okPhi, "argument list is append(Fields(head), trailing) or Fields(head), nothing else")
 	okSrc := c.suffixOf(split.Call.Args[0], param, 0)
-	r.Add(rule, "split-operand", c.InstrPos(split), c.FuncKey(pl), "the split is applied to a suffix of the received line", okSrc, "operand derives from the parameter by s[i:] slicing / the remainder of strings.Cut")
+	if host != pl {
+		okSrc = false
+		if hp, isP := split.Call.Args[0].(*ssa.Parameter); isP && hp.Parent() == host {
+			idx := -1
+			for i, q := range host.Params {
+				if q == hp {
+					idx = i
+				}
+			}
+			sites := c.staticCallers(host)
+			okSrc = len(sites) > 0 && idx >= 0
+			for _, cs := range sites {
+				if cs.Parent() != pl || idx >= len(cs.Common().Args) || !c.suffixOf(cs.Common().Args[idx], param, 0) {
+					okSrc = false
+				}
+			}
+		}
+	}
+	r.Add(rule, "split-operand", c.InstrPos(split), c.FuncKey(host), "the split is applied to a suffix of the received line", okSrc, "operand derives from the parameter by s[i:] slicing / the remainder of strings.Cut")
 }
 
 // isElemOf: v is the load of element idx of the slice value sl.
